@@ -201,6 +201,10 @@ def setup():
   @gin.configurable(module='c01probes')
   def consumer(fn=None):
     return fn
+
+  @gin.configurable(module='c01probes')
+  def boom(kind=0):
+    raise [KeyboardInterrupt, SystemExit, GeneratorExit][kind % 3]('boom')
   global CONSUMER
   CONSUMER = consumer
 
@@ -406,6 +410,9 @@ class enter:
       self.stack.pop().__exit__(None, None, None)
 
 
+_ABORTS = [0]
+
+
 def install(sh, sel, keys):
   """Hard reset, then bind tagged sentinels for the given (scope, param) keys and the consumer references."""
   harness.hard_reset()
@@ -415,6 +422,19 @@ def install(sh, sel, keys):
   for ri, rsc in enumerate(['', 's', 's/t']):
     gin.bind_parameter(('r%d' % ri, 'c01probes.consumer', 'fn'),
                        cfg.ConfigurableReference((rsc + '/' if rsc else '') + sel, False))
+  # History: a scoped configurable (reached by selector or through a reference) was aborted by an exception that is
+  # not an Exception (Ctrl-C, SystemExit, GeneratorExit) and the program carried on.  Nothing of it may linger.
+  n = core.h64(repr((sel, sorted(keys)))) % 6   # a function of the case, so replays agree
+  gin.bind_parameter('c01probes.boom.kind', n)
+  try:
+    if n % 2:
+      gin.get_configurable('s/t/c01probes.boom')()
+    else:
+      gin.bind_parameter(('rb', 'c01probes.consumer', 'fn'), cfg.ConfigurableReference('t/c01probes.boom', True))
+      with gin.config_scope('rb'):
+        CONSUMER()
+  except BaseException:  # pylint: disable=broad-except
+    pass
   return bindings
 
 
